@@ -41,7 +41,11 @@ WANTED = [("sbdfstring.c", "sbdf_convert_utf8_to_iso88591"), ("sbdfstring.c", "s
           ("sbdfstring.c", "sbdf_str_create_len"), ("sbdfstring.c", "sbdf_str_create"), ("sbdfstring.c", "sbdf_str_destroy"),
           ("sbdfstring.c", "sbdf_str_copy"), ("bytearray.c", "sbdf_ba_create"), ("bytearray.c", "sbdf_ba_destroy"),
           # reading a string from a stream into a fresh block (bulk fread into the memory)
-          ("internals.c", "sbdf_read_string")]
+          ("internals.c", "sbdf_read_string"),
+          # structs and arrays of pointers (the cell heap): metadata lists, objects, slices
+          ("metadata.c", "sbdf_md_create"), ("metadata.c", "sbdf_md_set_immutable"), ("metadata.c", "sbdf_md_cnt"), ("metadata.c", "sbdf_md_exists"),
+          ("object.c", "sbdf_obj_destroy"), ("object.c", "sbdf_obj_eq"), ("valuearray.c", "sbdf_va_row_cnt"), ("valuearray.c", "sbdf_va_destroy"),
+          ("columnslice.c", "sbdf_cs_create"), ("columnslice.c", "sbdf_cs_row_cnt"), ("columnslice.c", "sbdf_cs_get_property")]
 CALLABLE = set(w[1] for w in WANTED if len(w) == 2) | {"sbdf_swap"}
 
 
@@ -89,7 +93,7 @@ def call_stmt(ret, n, scope, value_args_only=False):
         if u.get("kind") == "DeclRefExpr" and u.get("referencedDecl", {}).get("kind") == "ParmVarDecl" and qt(u).replace(" ", "") in CELLPTR:
             nm = u["referencedDecl"]["name"]; OUTPARAMS.add("*" + nm); cells.append("*" + nm); args.append('(AFwd "%s")' % nm); continue
         e, f = expr(a, scope)
-        if f.w or f.io: raise Untranslatable("argument with side effects")
+        if (f.w or f.io) and len(n["inner"]) != 2: raise Untranslatable("argument with side effects")    # a single argument: nothing to be ordered against
         args.append("(AVal %s)" % e)
     if len(set(cells)) != len(cells): raise Untranslatable("one cell passed twice")
     if ret is not None and ret in cells: raise Untranslatable("result stored into a cell that is also passed")
@@ -132,7 +136,7 @@ def is_intlike(t):
 
 
 def is_charptr(t):
-    return t.replace("const ", "").replace(" ", "") in ("char*", "unsignedchar*", "void*")
+    return t.replace("const ", "").replace(" const", "").replace("*const", "*").replace(" ", "") in ("char*", "unsignedchar*", "void*")
 
 
 def elem_size(t):
@@ -141,6 +145,73 @@ def elem_size(t):
     if t in ("char*", "unsignedchar*", "void*"): return 1
     if t == "int*": return 4
     return None
+
+
+STRUCTS = {}          # struct name -> [(field name, C type)]: one cell per field (a value type is a struct with the one int field id)
+
+
+def load_structs(tu):
+    def walk(n):
+        if n.get("kind") == "RecordDecl" and n.get("name") and n.get("completeDefinition"):
+            fs = [(c["name"], qt(c)) for c in n.get("inner", []) if c.get("kind") == "FieldDecl"]
+            if fs: STRUCTS[n["name"]] = fs
+        for c in n.get("inner", []):
+            if isinstance(c, dict) and c.get("kind") in ("RecordDecl", "TypedefDecl", "LinkageSpecDecl"): walk(c)
+    for c in tu.get("inner", []): walk(c)
+
+
+def norm_t(t):
+    return t.replace("const ", "").replace(" const", "").replace("*const", "*").replace("struct ", "").replace(" ", "")
+
+
+def struct_of_ptr(t):
+    t = norm_t(t)
+    if t.endswith("*") and not t.endswith("**") and t[:-1] in STRUCTS and t[:-1] != "sbdf_valuetype": return t[:-1]
+    return None
+
+
+def is_pp(t):
+    """pointer to pointer: an array of pointers (cells), or an out-parameter cell"""
+    t = norm_t(t)
+    return t.endswith("**") and not t.endswith("***")
+
+
+def is_ptr_t(t):
+    return norm_t(t).endswith("*")
+
+
+def field_of(sname, fname):
+    for i, (f, t) in enumerate(STRUCTS[sname]):
+        if f == fname: return i, is_ptr_t(t)
+    raise Untranslatable("field %s of %s" % (fname, sname))
+
+
+def member_cell(s, scope):
+    """an lvalue p->f (or p->vt.id): (term of p, fx, cell index, is the field a pointer)"""
+    s = unparen(s)
+    if s.get("kind") != "MemberExpr": return None
+    if not s.get("isArrow"):
+        inner = unparen(s["inner"][0])
+        if s.get("name") == "id" and inner.get("kind") == "MemberExpr" and norm_t(qt(inner)) == "sbdf_valuetype":
+            return member_cell(inner, scope)
+        return None
+    sn = struct_of_ptr(qt(s["inner"][0]))
+    if sn is None: return None
+    p, f = expr(s["inner"][0], scope)
+    idx, isp = field_of(sn, s["name"])
+    return p, f, idx, isp
+
+
+def cellarr_local(n, scope):
+    """a local variable (not a parameter) of pointer-to-pointer type: a pointer into an array of pointers"""
+    n = unparen(n)
+    if n.get("kind") == "DeclRefExpr" and n.get("referencedDecl", {}).get("kind") == "VarDecl" and is_pp(qt(n)):
+        return var_of(n, scope)
+    return None
+
+
+def coq_bool(b):
+    return "true" if b else "false"
 
 
 def zlit(v):
@@ -239,6 +310,34 @@ def expr(n, scope):
             if cname == "fread":
                 f.w.add(v); return '(EReadByte "%s")' % v, f
             f.r.add(v); return '(EWriteByte (EVar "%s"))' % v, f
+        if cname == "calloc" and len(n["inner"]) == 3:
+            def sizeof_t(x):
+                x = strip_casts(x)
+                if x.get("kind") == "UnaryExprOrTypeTraitExpr" and x.get("name") == "sizeof":
+                    return x.get("argType", {}).get("qualType") or (qt(unparen(x["inner"][0])) if x.get("inner") else "")
+                return None
+            a1, a2 = n["inner"][1], n["inner"][2]
+            if sizeof_t(a1) is not None: a1, a2 = a2, a1
+            t = sizeof_t(a2)
+            if t is None: raise Untranslatable("calloc without a sizeof")
+            if norm_t(t) in STRUCTS:
+                u = strip_casts(a1)
+                if not (u.get("kind") == "IntegerLiteral" and int(u["value"]) == 1): raise Untranslatable("calloc of several structs")
+                f_ = Fx(); f_.io = True
+                return "(ECalloc (EConst %d))" % len(STRUCTS[norm_t(t)]), f_
+            if is_ptr_t(t):
+                e_, f_ = expr(a1, scope)
+                if f_.w or f_.io: raise Untranslatable("calloc count with side effects")
+                f_.io = True
+                return "(ECalloc %s)" % e_, f_
+            raise Untranslatable("calloc of " + t)
+        if cname in ("sbdf_ti_is_arr", "sbdf_get_unpacked_size", "sbdf_get_packed_size") and len(n["inner"]) == 2 and cname not in CALLABLE:
+            e_, f_ = expr(n["inner"][1], scope)
+            return '(ELeaf "%s" %s)' % (cname, e_), f_
+        if cname == "strcmp" and len(n["inner"]) == 3:
+            a_, fa = expr(n["inner"][1], scope); b_, fb = expr(n["inner"][2], scope)
+            if fa.w or fb.w: raise Untranslatable("strcmp arguments with side effects")
+            return "(EStrcmp %s %s)" % (a_, b_), fx_join(fa, fb)
         if cname == "malloc" and len(n["inner"]) == 2:
             e_, f_ = expr(n["inner"][1], scope)
             if f_.w or f_.io: raise Untranslatable("malloc size with side effects")
@@ -261,8 +360,11 @@ def expr(n, scope):
             fj = Fx()
             for a in n["inner"][1:3]:
                 u = strip_casts(a)
-                if not (u.get("kind") == "DeclRefExpr" and is_charptr(qt(u))): raise Untranslatable("memcmp on something that is not a char pointer variable")
-                e_, f_ = expr(a, scope); ps.append(e_); fj = fx_join(fj, f_)
+                if not ((u.get("kind") == "DeclRefExpr" and is_charptr(qt(u))) or (member_cell(u, scope) is not None and is_charptr(qt(u)))):
+                    raise Untranslatable("memcmp on something that is not a char pointer variable or field")
+                e_, f_ = expr(a, scope)
+                if f_.w or f_.io: raise Untranslatable("memcmp argument with side effects")
+                ps.append(e_); fj = fx_join(fj, f_)
             cnt, fc = expr(n["inner"][3], scope)
             if fc.w or fc.io: raise Untranslatable("memcmp count with side effects")
             return "(EMemcmp %s %s %s)" % (ps[0], ps[1], cnt), fx_join(fj, fc)
@@ -291,6 +393,22 @@ def expr(n, scope):
             v = var_of(s, scope)
             if v is not None:
                 f = Fx(); f.r.add(v); return '(EVar "%s")' % v, f
+            mc = member_cell(s, scope)
+            if mc is not None:
+                p, f, idx, isp = mc
+                return "(ECellLoad %s (EConst %d) %s)" % (p, idx, coq_bool(isp)), f
+            if s.get("kind") == "UnaryOperator" and s.get("opcode") == "*" and is_pp(qt(unparen(s["inner"][0]))):
+                pv = unparen(s["inner"][0])
+                while pv.get("kind") == "ImplicitCastExpr": pv = unparen(pv["inner"][0])
+                if not (pv.get("kind") == "DeclRefExpr" and pv.get("referencedDecl", {}).get("kind") == "ParmVarDecl"):
+                    p, f = expr(s["inner"][0], scope)
+                    return "(ECellLoad %s (EConst 0) %s)" % (p, coq_bool(is_ptr_t(qt(s)))), f
+                nm = "*" + pv["referencedDecl"]["name"]; OUTPARAMS.add(nm)
+                f = Fx(); f.r.add(nm); return '(EVar "%s")' % nm, f
+            if s.get("kind") == "ArraySubscriptExpr" and is_pp(qt(unparen(s["inner"][0]))):
+                p_, fp = expr(s["inner"][0], scope); i_, fi = expr(s["inner"][1], scope)
+                if fp.w or fi.w: raise Untranslatable("subscript with side effects")
+                return "(ECellLoad %s %s %s)" % (p_, i_, coq_bool(is_ptr_t(qt(s)))), fx_join(fp, fi)
             if s.get("kind") == "UnaryOperator" and s.get("opcode") == "*":
                 p, f = expr(s["inner"][0], scope)
                 return "(EDeref %s)" % p, f
@@ -327,6 +445,9 @@ def expr(n, scope):
             return "(ECast %s %s)" % (CTY[t], e), f
         if ck == "NoOp" or (ck == "BitCast" and elem_size(qt(n)) and elem_size(qt(sub))):
             return expr(sub, scope)
+        if ck == "BitCast" and is_ptr_t(qt(n)) and is_ptr_t(qt(sub)) and (is_pp(qt(n)) or struct_of_ptr(qt(n)) or norm_t(qt(n)) in ("void*", "char*", "unsignedchar*")) \
+                and (is_pp(qt(sub)) or struct_of_ptr(qt(sub)) or norm_t(qt(sub)) in ("void*", "char*", "unsignedchar*")):
+            return expr(sub, scope)            # pointers are untyped values: what they point to is decided where they are used
         if ck == "NullToPointer":
             return "ENull", Fx()
         raise Untranslatable("cast kind " + str(ck))
@@ -337,6 +458,8 @@ def expr(n, scope):
             v = var_of(sub, scope)
             if v is None: raise Untranslatable(op + " on a non-variable")
             f = Fx(); f.r.add(v); f.w.add(v)
+            if cellarr_local(sub, scope) is not None:
+                return '(ECellStep "%s" %s %s)' % (v, zlit(1 if op == "++" else -1), coq_bool(bool(n.get("isPostfix")))), f
             es = elem_size(qt(sub))
             if es and es != 1:
                 return '(%s "%s" %s)' % ("EPostAdd" if n.get("isPostfix") else "EPreAdd", v, zlit(es if op == "++" else -es)), f
@@ -359,6 +482,29 @@ def expr(n, scope):
                 if v in f.w: raise Untranslatable("assignment to a variable its right side modifies")
                 f.w.add(v)
                 return '(EAssign "%s" %s)' % (v, e), f
+            mc = member_cell(la, scope)
+            if mc is not None:
+                p, fp, idx, isp = mc
+                e, fe = expr(b, scope)
+                if fp.w or fe.w: raise Untranslatable("field store with side effects")
+                f = fx_join(fp, fe); f.io = True
+                return "(ECellStore %s (EConst %d) %s)" % (p, idx, e), f
+            if la.get("kind") == "ArraySubscriptExpr" and is_pp(qt(unparen(la["inner"][0]))):
+                p_, fp = expr(la["inner"][0], scope); i_, fi = expr(la["inner"][1], scope); e, fe = expr(b, scope)
+                if fp.w or fi.w or fe.w: raise Untranslatable("subscripted store with side effects")
+                f = fx_join(fp, fx_join(fi, fe)); f.io = True
+                return "(ECellStore %s %s %s)" % (p_, i_, e), f
+            if la.get("kind") == "UnaryOperator" and la.get("opcode") == "*" and is_pp(qt(unparen(la["inner"][0]))):
+                pv = unparen(la["inner"][0])
+                while pv.get("kind") == "ImplicitCastExpr": pv = unparen(pv["inner"][0])
+                if pv.get("kind") == "DeclRefExpr" and pv.get("referencedDecl", {}).get("kind") == "ParmVarDecl":
+                    nm = "*" + pv["referencedDecl"]["name"]; OUTPARAMS.add(nm)
+                    e, f = expr(b, scope); f.w.add(nm)
+                    return '(EAssign "%s" %s)' % (nm, e), f
+                p_, fp = expr(la["inner"][0], scope); e, fe = expr(b, scope)
+                if fp.w or fe.w: raise Untranslatable("store through a pointer with side effects")
+                f = fx_join(fp, fe); f.io = True
+                return "(ECellStore %s (EConst 0) %s)" % (p_, e), f
             if la.get("kind") == "MemberExpr" and la.get("name") == "id" and la.get("isArrow"):
                 b_ = strip_casts(la["inner"][0])
                 if b_.get("kind") == "DeclRefExpr" and b_.get("referencedDecl", {}).get("kind") == "ParmVarDecl" and qt(b_).replace(" ", "") == "sbdf_valuetype*":
@@ -400,6 +546,11 @@ def expr(n, scope):
             return "(%s %s %s)" % ("ELAnd" if op == "&&" else "ELOr", ea, eb), fx_join(fa, fb)
         if op == ",":
             raise Untranslatable("comma operator")
+        if op in ("==", "!=") and is_ptr_t(qt(a)) and is_ptr_t(qt(b)):
+            ea, fa = expr(a, scope); eb, fb = expr(b, scope)
+            if not order_ok(fa, fb): raise Untranslatable("operands of %s depend on the evaluation order" % op)
+            t = "(EPtrEq %s %s)" % (ea, eb)
+            return (t if op == "==" else "(ELNot %s)" % t), fx_join(fa, fb)
         if op in BIN:
             if not (is_intlike(qt(unparen(a))) or qt(a) in CTY) and False: pass
             ea, fa = expr(a, scope); eb, fb = expr(b, scope)
@@ -463,7 +614,7 @@ def stmt(n, scope, declared):
     if k in ("CompoundStmt", "NullStmt", "BreakStmt"):
         return stmt1(n, scope, declared)
     del PENDING[:]
-    if k in ("WhileStmt", "ForStmt"):
+    if k in ("WhileStmt", "ForStmt", "SwitchStmt"):
         out = stmt1(n, scope, declared)
         return out
     if k == "IfStmt":
@@ -487,7 +638,7 @@ def stmt1(n, scope, declared):
             if d.get("kind") != "VarDecl": raise Untranslatable("declaration of " + str(d.get("kind")))
             nm, t = d["name"], qt(d)
             if d.get("storageClass") in ("static", "extern"): raise Untranslatable("static local " + nm)
-            if not (t in CTY or is_charptr(t) or t.replace(" ", "") == "int*"): raise Untranslatable("local %s of type %s" % (nm, t))
+            if not (t in CTY or is_charptr(t) or t.replace(" ", "") == "int*" or struct_of_ptr(t) or is_pp(t)): raise Untranslatable("local %s of type %s" % (nm, t))
             if nm in declared: raise Untranslatable("second declaration of " + nm)
             declared.add(nm)
             if d.get("inner"):
@@ -527,13 +678,43 @@ def stmt1(n, scope, declared):
         if inc and inc.get("kind"): b = "(SSeq %s (SExpr %s))" % (b, expr(inc, scope)[0])
         parts.append("(SWhile %s %s)" % (c, b))
         return seq(parts)
+    if k == "SwitchStmt":
+        cond, body = n["inner"][0], n["inner"][1]
+        c, fc = expr(cond, scope)
+        if fc.w or fc.io or PENDING: raise Untranslatable("switch on an expression with side effects")
+        if body.get("kind") != "CompoundStmt": raise Untranslatable("switch body")
+        groups = []; labels = []; stmts = []
+        def flat(x):
+            # case A: case B: stmt  is nested: CaseStmt(A, CaseStmt(B, stmt))
+            if x.get("kind") == "CaseStmt":
+                labels.append(x["inner"][0]); flat(x["inner"][-1])
+            elif x.get("kind") == "DefaultStmt":
+                raise Untranslatable("default label")
+            else:
+                stmts.append(x)
+        for x in body.get("inner", []):
+            if x.get("kind") == "CaseStmt" and stmts:
+                groups.append((labels, stmts)); labels = []; stmts = []
+            elif x.get("kind") == "CaseStmt" and labels and not stmts:
+                pass
+            flat(x)
+        if labels: groups.append((labels, stmts))
+        out = "SSkip"
+        for (ls, ss) in reversed(groups):
+            if not ss or ss[-1].get("kind") != "ReturnStmt": raise Untranslatable("a case that does not end in return")
+            if any(has_continue_or_break(x) or x.get("kind") == "BreakStmt" for x in ss): raise Untranslatable("break inside a case")
+            tests = ["(EBin Eq %s %s)" % (c, expr(l, scope)[0]) for l in ls]
+            t = tests[0]
+            for u in tests[1:]: t = "(ELOr %s %s)" % (t, u)
+            out = "(SIf %s %s %s)" % (t, seq([stmt(x, scope, declared) for x in ss]), out)
+        return out
     if k == "BreakStmt":
         return "SBreak"
     if k == "ReturnStmt" and n.get("inner") and callee_of(strip_casts(n["inner"][0])) in CALLABLE:
         EXTRA_LOCALS.add("$ret")
         return '(SSeq %s (SReturn (EVar "$ret")))' % call_stmt("$ret", strip_casts(n["inner"][0]), scope)
     if k == "ReturnStmt":
-        if not n.get("inner"): raise Untranslatable("return without a value")
+        if not n.get("inner"): return "(SReturn (EConst 0))"          # return; in a void function: the value is never used
         return "(SReturn %s)" % expr(n["inner"][0], scope)[0]
     # an expression statement
     if assign_call(n, scope):
@@ -565,7 +746,7 @@ def main():
         cfg = tuple(w[2]) if len(w) > 2 else ()
         pname = w[3] if len(w) > 3 else "prog_" + fn
         path = os.path.join(REPO, "src", fname)
-        if (path, cfg) not in cache: cache[(path, cfg)] = ast_of(path, cfg)
+        if (path, cfg) not in cache: cache[(path, cfg)] = ast_of(path, cfg); load_structs(cache[(path, cfg)])
         decl = None
         for n in cache[(path, cfg)]["inner"]:
             if n.get("kind") == "FunctionDecl" and n.get("name") == fn and any(c.get("kind") == "CompoundStmt" for c in n.get("inner", [])):
@@ -576,7 +757,7 @@ def main():
             for c in decl["inner"]:
                 if c.get("kind") == "ParmVarDecl":
                     t = qt(c)
-                    if not (t in CTY or is_charptr(t) or t.replace(" ", "") in ("FILE*", "int*", "sbdf_valuetype", "sbdf_valuetype*", "char**")): raise Untranslatable("parameter of type " + t)
+                    if not (t in CTY or is_charptr(t) or t.replace(" ", "") in ("FILE*", "int*", "sbdf_valuetype", "sbdf_valuetype*", "char**") or struct_of_ptr(t) or is_pp(t)): raise Untranslatable("parameter of type " + t)
                     params.append(c["name"])
             if len(set(params)) != len(params): raise Untranslatable("duplicate parameter names")
             body = [c for c in decl["inner"] if c.get("kind") == "CompoundStmt"][0]
